@@ -231,7 +231,58 @@ fn check(input: &In, case: &mut Case) -> Result<(), Fail> {
     if sweep_all {
         case.class("capacity-sweep");
     }
-    writers(&pk, &u, &c, k, case, sweep_all)
+    writers(&pk, &u, &c, k, case, sweep_all)?;
+    // One packet in eight is also written with an extended response code (BADVERS) and NO OPT record set. The
+    // documentation asks for an OPT there, so what becomes of the code is no claim (C02 / C09 stay out), but the
+    // statement on framing has no such exception: whatever is emitted must count what it writes. A library that
+    // adds an OPT of its own accord is accepted (it must then count it); one that refuses to write makes no claim.
+    if p.id % 8 == 5 {
+        let mut q = p.clone();
+        q.rcode = 16;
+        q.edns = None;
+        let route = build_variant((p.id % 3) as u8);
+        let pk = lib("build", || build(&q))?.map_err(|e| Fail::new("harness:build", e))?;
+        drop(route);
+        case.class("extended-rcode-without-opt");
+        let (Ok(u), Ok(c)) = (ser_plain(&pk), ser_compressed(&pk)) else {
+            case.class("extended-rcode-without-opt:refused:no-claim");
+            return Ok(());
+        };
+        check_framing_unannounced(&u, &q, "build_bytes_vec (extended rcode, no OPT set)")?;
+        check_framing_unannounced(&c, &q, "build_bytes_vec_compressed (extended rcode, no OPT set)")?;
+        writers(&pk, &u, &c, k, case, false)?;
+    }
+    Ok(())
+}
+
+/// framing of a packet whose response code needs an OPT that was not supplied: zero or one OPT may be written,
+/// and the additional count must say which
+fn check_framing_unannounced(out: &[u8], p: &APacket, what: &str) -> Result<(), Fail> {
+    let verdict = || -> Result<(), Fail> {
+        ensure!(out.len() >= 12, "c04:short", "{}: {} bytes", what, out.len());
+        let w = walk(out).map_err(|e| Fail::new("c04:framing", format!("{}: the envelope walker fails: {:?}", what, e)))?;
+        let opts = w.records.iter().filter(|r| r.rtype == 41).count();
+        ensure!(opts <= 1, "c04:opt-count", "{}: {} OPT records written", what, opts);
+        let want = [p.questions.len(), p.answers.len(), p.authorities.len(), p.additionals.len() + opts];
+        for k in 0..3 {
+            ensure!(w.counts[k] as usize == want[k], "c04:count", "{}: header count #{} is {} but {} entries were supplied", what, k, w.counts[k], want[k]);
+        }
+        ensure!(
+            w.counts[3] as usize == p.additionals.len() || w.counts[3] as usize == p.additionals.len() + 1,
+            "c04:count",
+            "{}: header count #3 is {} but {} records were supplied (one more if an OPT is added)",
+            what,
+            w.counts[3],
+            p.additionals.len()
+        );
+        ensure!(w.end == out.len(), "c04:trailing", "{}: entries end at {} but {} bytes were written", what, w.end, out.len());
+        ensure!(w.counts[3] as usize == want[3], "c04:count", "{}: header count #3 is {} but {} records (of which {} OPT) were written", what, w.counts[3], want[3], opts);
+        Ok(())
+    };
+    match verdict() {
+        Err(f) if f.sig == "c04:framing" => with_in_place_names(verdict),
+        r => r,
+    }
 }
 
 // ---- packets assembled through the other public constructors (text / map / setter based)
